@@ -45,6 +45,116 @@ CLAIMED = {
              "calculator replaying the survivors, rule effect with named fields and the unit chain are decided by the per-run "
              "differential check (paired histories) plus an independent oracle; a computed end-to-end example is a theorem.",
         design="DESIGN.md section 7 C18", technique="Coq proof by induction over registration histories (refinement to a list spec) + model/implementation correspondence on paired histories"),
+
+    "C03": dict(
+        text="Theorems (any number algebra) over the model's parser, interpreter, variable substitution and session map: every "
+             "program of assign/use lines refines the reference environment semantics of Spec/Env.v line by line (latest binding "
+             "wins, a binding stores a value so later re-assignments of other names never change it, a failing line leaves every "
+             "existing binding unchanged); any line changes at most one variable; names are matched case-insensitively; "
+             "pick_variable returns the closest-then-longest matching name; find_location is sound and complete (least index). Two "
+             "genuine defects are characterised by refuted-witness theorems and listed as known findings (ghost variable after a "
+             "failing assignment, name-key collision of `ab` / `a b`). Text->token step and the model-vs-code tie: per-run "
+             "differential check on generated programs (single exec and re-used sessions) with an independent reference interpreter.",
+        design="DESIGN.md section 7 C03", technique="Coq proof: refinement to an abstract environment by induction over programs + model/implementation correspondence"),
+    "C05": dict(
+        text="Theorems over exact rationals for ALL X A B p: the five rule functions and the interpreter's percent operand give the "
+             "seven textbook formulas (zero divisor -> 0, money stays money in the same currency); the exact operation sequence for "
+             "any number algebra (so the binary64 reading is fixed); finite-table theorems over the rule table regenerated from "
+             "config.json (en and tr) that the intended rule fires on each phrase shape, for all operand values, through rule loop, "
+             "post-processing, parser and interpreter; both spellings p% / %p yield the same token for every digit string "
+             "(induction over the regex matcher). Tie: per-run differential check with an exact-rational oracle.",
+        design="DESIGN.md section 7 C05", technique="Coq proof (field over Qc, vm_compute on open terms for rule selection, induction over the regex matcher) + model/implementation correspondence"),
+    "C06": dict(
+        text="Theorems: conversion is a*rate(B)/rate(A) (exact rationals, all amounts, all configurations; operation order fixed for "
+             "binary64), identity for A=B; + and - convert the right operand into the left currency, * / by a number keep the "
+             "currency, money/money is a plain ratio; for ALL operation histories the rate table is the fold of the accepted "
+             "updates (last write wins, other currencies untouched, evaluation never changes it, false exactly for unknown names); "
+             "finite-table theorems over the 161 regenerated currencies, aliases and 32x32 rated pairs, every literal spelling end to "
+             "end. Four literal-clause defects are refuted-witness theorems and listed known findings. Tie: per-run differential "
+             "check on evaluations and update histories with an exact-rational oracle over config.json.",
+        design="DESIGN.md section 7 C06", technique="Coq proof (field over Qc, induction over update histories, finite tables by vm_compute) + model/implementation correspondence"),
+    "C08": dict(
+        text="Theorems: for ALL digit lists and admissible separator pairs the literal reader maps the literal written in a "
+             "convention to the same canonical decimal (read/write round trip, any grouping, signed, and the correctly rounded "
+             "binary64 value); parser, interpreter, every rule function, the unit loop, basic_execute and whole lines threading "
+             "variables are invariant under changing only the separators (parametricity proofs over the model), the lexer reads "
+             "separators only through read_decimal. The regex restriction to [0-9.,] inside literals is a listed known finding "
+             "(grouping by ' ' or \"'\"). Tie: per-run differential check evaluating each abstract line under two configurations.",
+        design="DESIGN.md section 7 C08", technique="Coq proof (induction over strings for replace, structural parametricity over the model) + model/implementation correspondence"),
+    "C09": dict(
+        text="Theorems: a date is accepted iff it is a valid proleptic-Gregorian date and denotes days_from_civil (bijection "
+             "proved for all days); small_date is sound, complete and panic-free; `A to B` is |difference| days, symmetric; exact "
+             "characterisation of date +/- duration for all inputs: |k| < 30 days exact, k days as k/365 years + months + remainder, "
+             "N months / N years as calendar months/years where the intermediate dates exist; today/tomorrow/yesterday are "
+             "consecutive days; month names per language (finite tables). The two pinned defects (30-day/365-day quantisation, no "
+             "year borrow when subtracting months) are exactly characterised, refuted by witnesses and listed as known findings. "
+             "Tie: per-run differential check with python's calendar as oracle, all spellings, en and tr.",
+        design="DESIGN.md section 7 C09", technique="Coq proof (lia with div/mod over the civil calendar, finite tables) + model/implementation correspondence"),
+    "C12": dict(
+        text="Theorems: every upgrade/downgrade/bridge code of the regenerated unit table has the shape {value} [*|/ c]; for any "
+             "evaluator that computes those steps the model's conversion performs exactly the steps of the index walk; in exact "
+             "arithmetic the walk is x * factor and, finite-table over ALL ordered pairs and target names incl. both bridges, the "
+             "factor equals size(u)/size(v) of the hand-written unit definitions (hence linear, invertible, transitive for all "
+             "amounts); no conversion or arithmetic crosses kinds; arithmetic rules for quantities; independence from separators. "
+             "The faithful binary64 evaluator (print, substitute, lex, parse, evaluate) is executed bit-exactly on samples x all "
+             "codes and all 365 pairs, and on every case of the per-run differential check (oracle: exact fractions).",
+        design="DESIGN.md section 7 C12", technique="Coq proof (finite tables over regenerated data by vm_compute, linearity over Qc) + model/implementation correspondence"),
+    "C13": dict(
+        text="Theorems: reading the printed digits of n gives n back for every base 2..36, both cases, every 0 <= n < 2^64 (fuel "
+             "proved sufficient), no leading zeros; the literal reader accepts exactly n < 2^63; printing a based number is prefix + "
+             "digits of the 64-bit value; `to hex|octal|binary|decimal` rounds half away from zero and sets the base; arithmetic "
+             "keeps the left operand's base; at binary64 every n < 2^53 round-trips (uses two stdlib float axioms, listed). The "
+             "hex-literal/currency-code collision is a refuted witness and a listed known finding. Tie: per-run differential check "
+             "incl. read-back of every printed literal.",
+        design="DESIGN.md section 7 C13", technique="Coq proof (strong induction on n by division, lia) + model/implementation correspondence"),
+    "C14": dict(
+        text="Theorems: for ALL n the instant decomposes into day and second-of-day and back (floor division, negatives included), "
+             "and with the civil-calendar bijection the civil reading of a timestamp and back is the identity; to_unixtime gives "
+             "midnight UTC for dates and the instant for times/date-times independent of the display zone; from_unixtime yields the "
+             "same instant in the default or requested zone and declines (never panics) outside chrono's range; the two are mutual "
+             "inverses; `at` builds date*86400+secs for hours 0..23; the printed timestamp is the full decimal of n for ALL n "
+             "(parse_i64 (Z_to_str z) = Some z). Whole-pipeline families by vm_compute. Tie: per-run differential check with "
+             "python datetime as oracle over years 1..9999, 12 default and 15 explicit zones.",
+        design="DESIGN.md section 7 C14", technique="Coq proof (lia with div/mod, calendar bijection, digit-string induction) + model/implementation correspondence"),
+    "C17": dict(
+        text="Theorems: the byte->character map is exact for all lines; the collection invariant (0 <= s < e <= length in "
+             "characters, pairwise disjoint) is preserved by add for ANY byte span, by sort (which sorts and permutes) and by "
+             "update_tokens under a stated side condition, so for every line, configuration and language the lexer's tokens are "
+             "well-formed, and through the whole pipeline every offset is within the line; exact panic condition of the drain. The "
+             "remaining defect (offsets taken from a case-mapped copy with length-changing characters: misplaced or empty spans) "
+             "is reproduced by refuted-witness theorems and is a listed known finding. Tie: per-run differential check with UI "
+             "tokens compared exactly, multi-byte and case-length-changing characters injected.",
+        design="DESIGN.md section 7 C17", technique="Coq proof (invariant preservation over the UI-token collection, induction over lines) + model/implementation correspondence"),
+
+    "C01": dict(
+        text="Theorems for ALL texts, languages and configurations: a returning evaluation has status true and exactly one slot "
+             "per line (lines split on LF/CRLF), it is the in-order fold of the line evaluator (slot i = line i under the "
+             "variables of the lines before; an error or empty slot never stops the fold), for execute and for re-used sessions; "
+             "the recursive-descent parser terminates on EVERY token list within its fuel (so its out-of-fuel outcome, the model's "
+             "stand-in for a hang, is unreachable); the rewrite loops terminate (Proofs/C01_Rewrite.v, measure: active typed "
+             "tokens; side condition on the regenerated patterns); an unknown language is a language without tables. Freedom "
+             "from the remaining panic sites is NOT a theorem: it is decided per run by the differential check on a malformed-"
+             "input stream (panics and watchdog time-outs of the crate are violations with that input).",
+        design="DESIGN.md section 7 C01", technique="Coq proof (fold refinement, strong induction on token-list length for parser termination, measure argument for rewrite loops) + model/implementation correspondence on a malformed-input stream"),
+    "C07": dict(
+        text="Theorems for any number algebra, every value, separator strings, digit count and both flags: format_number = "
+             "sign ++ group3(integer digits) ++ [decimal separator ++ fraction] with the fraction omitted exactly when removal is "
+             "on and all printed fraction digits are zero (unconditional since the repair 9ef4dcc; it never panics); grouping puts "
+             "a separator exactly every three digits from the right for ALL digit lists; the `{:.N}` digits are the exact binary64 "
+             "value rounded half-even (for every float and digit count); percent/money/unit wrappers, money placement for all 161 "
+             "currencies (finite table). Tie: per-run differential check with values injected exactly through atoms and an "
+             "exact-decimal oracle over separators x digits x flags x currencies.",
+        design="DESIGN.md section 7 C07", technique="Coq proof (induction on digit lists with a mod-3 invariant, exact rounding over Z, finite tables) + model/implementation correspondence"),
+
+    "C11": dict(
+        text="Theorems for ALL instants, wall times, offsets and durations: the printed clock is ((t + 60*off) mod 86400) in "
+             "HH:MM:SS with components in range; `T ZONE` re-anchors the wall time (instant = wall - 60*off, independent of the "
+             "default zone); `to ZONE` keeps the instant and swaps the display zone, so `T A to B` prints (w - 60a + 60b) mod 24h; "
+             "+/- a duration moves the clock modulo 24 h; `T1 to T2` is |t1 - t2|; the default zone after any history is the last "
+             "one set successfully. Finite tables through the real regexes and the whole pipeline: all H:MM / H:MM:SS / am-pm "
+             "forms, all 174 expressible non-currency zones of the regenerated table, 5490 GMT forms. Tie: per-run differential "
+             "check (thorough: all 174^2 ordered zone pairs) with an integer-arithmetic oracle.",
+        design="DESIGN.md section 7 C11", technique="Coq proof (lia with mod arithmetic, induction over set_timezone histories, finite tables by vm_compute) + model/implementation correspondence"),
 }
 
 PENDING_REASON = "check not built yet (work in progress; see DESIGN.md section 7)"
